@@ -74,6 +74,12 @@ func c02(c *core.Ctx) {
 		if singleResponseProbes(c) < 2 {
 			c.Missing("client stream types with a single-response probe (in-process and HTTP)")
 		}
+		// unary in-process: success needs the one response (obligations shared with C08/R2)
+		for _, ct := range channelTypes(c.P, "inprocgrpc") {
+			if fn := declaredMethod(c.P, ct, "Invoke"); fn != nil {
+				c08UnaryInproc(c, typeKey(ct)+".Invoke", fn)
+			}
+		}
 		c.EndRule()
 	}
 	// ---------------------------------------------------------------- R2
